@@ -141,7 +141,8 @@ def descM : Members → List J
   | (_, v) :: kvs => descendants v ++ descM kvs
 end
 
-/-- the nodes one step selects below a node -/
+/-- the nodes one step selects below a node. A descent selects a container and everything below
+    it (scalar leaves included); applied to a scalar it selects nothing (ojg). -/
 def stepAll : Step → J → List J
   | .key k, obj kvs => (lookup k kvs).toList
   | .idx i, arr xs =>
@@ -149,7 +150,7 @@ def stepAll : Step → J → List J
       | some n => xs[n]?.toList
       | none => []
   | .wild, j => children j
-  | .desc, j => descendants j
+  | .desc, j => if j.isContainer then descendants j else []
   | _, _ => []
 
 /-- every node the path selects (`:get-all`) -/
@@ -196,7 +197,7 @@ def walk {σ : Type} (f : σ → J → σ) : Path → σ → J → σ
       | none => s
   | .wild :: rest, s, arr xs => xs.foldl (fun s c => walk f rest s c) s
   | .wild :: rest, s, obj kvs => kvs.foldl (fun s kv => walk f rest s kv.2) s
-  | .desc :: rest, s, j => foldDesc (fun s c => walk f rest s c) s j
+  | .desc :: rest, s, j => if j.isContainer then foldDesc (fun s c => walk f rest s c) s j else s
   | _ :: _, s, _ => s
 
 /-! ### set -/
@@ -277,8 +278,9 @@ def setAt (v : J) : Bool → Path → J → Except Err J
   | _, .desc :: next :: rest, j => mapPost (setAt v true (next :: rest)) j
   | m, _ :: _ :: _, j => if m then .ok j else .error .mismatch
 
-/-- `bag-set` with a path -/
-def set (v : J) (p : Path) (j : J) : Except Err J := setAt v false p j
+/-- `bag-set` with a path: a path ending in a descent is rejected before anything is touched -/
+def set (v : J) (p : Path) (j : J) : Except Err J :=
+  if p.getLast? = some .desc then .error .badLast else setAt v false p j
 
 /-! ### remove -/
 
@@ -310,7 +312,7 @@ def modifyAt (f : J → J) : Path → J → J
       | none => arr xs
   | .wild :: rest, arr xs => arr (xs.map (modifyAt f rest))
   | .wild :: rest, obj kvs => obj (kvs.map (fun kv => (kv.1, modifyAt f rest kv.2)))
-  | .desc :: rest, j => mapPostP (modifyAt f rest) j
+  | .desc :: rest, j => if j.isContainer then mapPostP (modifyAt f rest) j else j
   | _ :: _, j => j
 
 /-- delete the children the last step selects -/
